@@ -290,3 +290,5 @@ def run(eng, rep):
     rule_selection(eng, rep, "C04-3.selection-prefers-the-smaller-value", {"ORDER", "NONE_HOLDER"}, "C04")
     rule_exits_select(eng, rep)
     rule_incumbent_not_overwritten_blindly(eng, rep)
+    from .records import rule_eval_results_are_fresh
+    rule_eval_results_are_fresh(eng, rep, "C04-6.evaluation-results-are-fresh-arrays")
